@@ -32,6 +32,12 @@ def main():
             vio = [l for l in out.splitlines() if l.startswith("VIOLATION") or l.startswith("  key=")]
             print("%s %s exit=%d wall=%.1fs %s" % (os.path.basename(os.path.dirname(patch)) + "/" + os.path.basename(patch), cid, p.returncode, time.time() - t,
                                                    "DETECTED" if p.returncode == 1 and vio else ("MISSED" if p.returncode == 0 else "ERROR")))
+            keys = sorted(set(l.split()[0] for l in vio if l.startswith("  key=")))
+            kinds = {}
+            for k in keys:
+                kk = k[len("key="):].split("/")[0]
+                kinds[kk] = kinds.get(kk, 0) + 1
+            print("    violation keys by kind:", kinds)
             for l in vio[:6]:
                 print("    " + l[:300])
             if p.returncode not in (0, 1):
